@@ -46,3 +46,37 @@ Proof.
   intros c s w q1 p1 q2 p2 Hw H. transitivity ((c * c + s * s) * (q1 * p2 - p1 * q2)); [field; exact Hw | rewrite H; ring].
 Qed.
 Print Assumptions rotation_mode_symplectic.
+
+(* ------------------------------------------------------------------------------------------------------------------------------
+   Implicit and constrained integrators, on tangent vectors.  A sub-step defined by an implicit equation maps a tangent vector to
+   one related to it by the linearised equation (implicit differentiation; Lib/Sympl3.v, Lib/Sympl4.v state the relations next to
+   the code they linearise).  For EVERY generated schedule -- generalised leapfrog, implicit midpoint, constrained leapfrog with
+   any number of inner steps, as well as the explicit ones -- and every pair of tangent vectors related through the whole step,
+   the canonical two-form is unchanged: no invertibility or smallness assumption, any dimension, any symmetric second-derivative
+   blocks (they may differ from sub-step to sub-step), any mixed block, any constraint Jacobians / multiplier-weighted constraint
+   Hessians, any symplectic linear h2 flow (drift or Gaussian rotation).                                                        *)
+Require Import Mici.Lib.Sympl3 Mici.Lib.Sympl4 Mici.Proofs.ImplicitSympl.
+Theorem generated_schedules_are_read_completely :
+  supported gen_sched_LeapfrogIntegrator = true /\ supported gen_sched_ImplicitLeapfrogIntegrator = true
+  /\ supported gen_sched_ImplicitMidpointIntegrator = true /\ supported gen_sched_ConstrainedLeapfrogIntegrator = true.
+Proof. repeat split; reflexivity. Qed.
+Print Assumptions generated_schedules_are_read_completely.
+
+Theorem every_generated_step_preserves_the_two_form :
+  forall n (S W K : nat -> mat) eps nc n_inner (Jc Jc' GL GM : nat -> mat) (Fl : nat -> blk),
+  (forall k, msym n (S k)) -> (forall k, msym n (W k)) -> (forall k, msym n (GL k)) -> (forall k, msym n (GM k)) -> (forall k, Sympl2.pres n (Fl k)) ->
+  forall l, In l [gen_sched_LeapfrogIntegrator; gen_sched_ImplicitLeapfrogIntegrator; gen_sched_ImplicitMidpointIntegrator; gen_sched_ConstrainedLeapfrogIntegrator] ->
+  forall k, rpres n (srel n S W K eps nc n_inner Jc Jc' GL GM Fl l k).
+Proof. intros n S W K eps nc n_inner Jc Jc' GL GM Fl HS HW HGL HGM HFl l _ k. exact (srel_pres n S W K eps nc n_inner Jc Jc' GL GM Fl HS HW HGL HGM HFl l k). Qed.
+Print Assumptions every_generated_step_preserves_the_two_form.
+
+(* the three implicit building blocks on their own *)
+Theorem implicit_substeps_preserve_the_two_form : forall n S W K t, msym n S -> msym n W ->
+  rpres n (SE n S W K t) /\ rpres n (SEadj n S W K t) /\ rpres n (MID n S W K t).
+Proof. intros n S W K t HS HW. split; [|split]; [exact (SE_pres n S W K t HS HW) | exact (SEadj_pres n S W K t HS HW) | exact (MID_pres n S W K t HS HW)]. Qed.
+Print Assumptions implicit_substeps_preserve_the_two_form.
+Theorem constrained_substeps_preserve_the_two_form_on_the_bundle : forall n c J J' GL GM Sh Fl t,
+  msym n GL -> msym n GM -> msym n Sh -> Sympl2.pres n Fl ->
+  rpres n (CArel n c J GM Sh t) /\ rpres n (CBrel n c J J' GL GM Fl).
+Proof. intros n c J J' GL GM Sh Fl t HGL HGM HSh HFl. split; [exact (CArel_pres n c J GM Sh t HGM HSh) | exact (CBrel_pres n c J J' GL GM Fl HGL HGM HFl)]. Qed.
+Print Assumptions constrained_substeps_preserve_the_two_form_on_the_bundle.
